@@ -329,7 +329,7 @@ def generate(rng, tier):
                 yield "chunk rt w %s %s" % (format(m, "0%db" % nd), " ".join(ops))
     for i in range(n_f):
         stream, exp = senc(rng, tier, interleave=(i % 2 == 1))
-        yield "chunk fde %s %s | %s" % (rand_part(rng, len(stream)), hexs(stream), " ".join(exp) if exp else ".")
+        yield "chunk %s %s %s | %s" % ("ide" if i % 2 == 1 else "fde", rand_part(rng, len(stream)), hexs(stream), " ".join(exp) if exp else ".")
     for i in range(n_bad):
         if rng.chance(1, 4):
             data = rng.bytes(rng.range(1, 40))
@@ -346,12 +346,12 @@ def nontrivial(case):
 
 
 def distribution(lines):
-    d = {"ser": 0, "rt": 0, "fde": 0, "de": 0, "rt_with_drops": 0, "ops_msg": 0, "ops_size": 0, "forced": 0, "droppable": 0,
+    d = {"ser": 0, "rt": 0, "fde": 0, "ide": 0, "de": 0, "rt_with_drops": 0, "ops_msg": 0, "ops_size": 0, "forced": 0, "droppable": 0,
          "part_whole": 0, "part_bytewise": 0, "part_random": 0, "part_fixed": 0, "zero_len_payload": 0, "ext_timestamp_msgs": 0}
     for l in lines:
         t = l.split()
         d[t[1]] = d.get(t[1], 0) + 1
-        if t[1] in ("rt", "de", "fde"):
+        if t[1] in ("rt", "de", "fde", "ide"):
             p = t[2][0]
             d[{"w": "part_whole", "b": "part_bytewise", "r": "part_random", "k": "part_fixed"}[p]] += 1
         if t[1] == "rt" and t[3] != "-" and "1" in t[3]:
